@@ -49,6 +49,7 @@ func (c *Ctx) hostedMessages() map[string]*types.Named {
 func runC07(c *Ctx, r *Report) {
 	c07ExpansionIdempotent(c, r)
 	c07EveryMessageWritten(c, r)
+	encodeDefCovers(c, r, "C07-R5-every-message-written")
 	roots, missing := c.rootFuncs(encodeRoots)
 	for _, m := range missing {
 		r.fail("C07-roots", m, "", "not found")
@@ -656,6 +657,31 @@ func c07EveryMessageWritten(c *Ctx, r *Report) {
 		}
 		r.need("writeMesg sites in encodeFile", n, 1)
 	}
+	encodeProfileRows(c, r, "C07-R5-every-message-written")
+}
+
+func reachesAny(b *ssa.BasicBlock, targets map[*ssa.BasicBlock]bool) bool {
+	seen := map[*ssa.BasicBlock]bool{}
+	q := []*ssa.BasicBlock{b}
+	for len(q) > 0 {
+		x := q[0]
+		q = q[1:]
+		if seen[x] {
+			continue
+		}
+		seen[x] = true
+		if targets[x] {
+			return true
+		}
+		q = append(q, x.Succs...)
+	}
+	return false
+}
+
+// encodeProfileRows: getEncodeMesgDef lists the profile's own rows (the value appended is the row
+// getFieldBySindex returned, not a modified copy): declared sizes are the profile's, for every
+// message of a list alike. Shared by C05, C06 and C07.
+func encodeProfileRows(c *Ctx, r *Report, rule string) {
 	if fn := c.ssaFn(c.fn(c.fit, "getEncodeMesgDef")); fn != nil {
 		n, bad := 0, ""
 		for _, b := range fn.Blocks {
@@ -679,24 +705,6 @@ func c07EveryMessageWritten(c *Ctx, r *Report) {
 				}
 			}
 		}
-		r.check(bad == "" && n > 0, "C07-R5-every-message-written", "getEncodeMesgDef/profile-rows", c.pos(fn.Pos()), "the definition lists the rows getFieldBySindex returned from the profile table", "getEncodeMesgDef appends "+bad+" instead of the profile's own row: a per-message copy with a different length makes the messages of one list disagree about the field's size, and the group's shared definition truncates or misreads the others")
+		r.check(bad == "" && n > 0, rule, "getEncodeMesgDef/profile-rows", c.pos(fn.Pos()), "the definition lists the rows getFieldBySindex returned from the profile table", "getEncodeMesgDef appends "+bad+" instead of the profile's own row: a per-message copy with a different length makes the messages of one list disagree about the field's size, and the group's shared definition truncates or misreads the others")
 	}
-}
-
-func reachesAny(b *ssa.BasicBlock, targets map[*ssa.BasicBlock]bool) bool {
-	seen := map[*ssa.BasicBlock]bool{}
-	q := []*ssa.BasicBlock{b}
-	for len(q) > 0 {
-		x := q[0]
-		q = q[1:]
-		if seen[x] {
-			continue
-		}
-		seen[x] = true
-		if targets[x] {
-			return true
-		}
-		q = append(q, x.Succs...)
-	}
-	return false
 }
